@@ -14,9 +14,12 @@ type IfUnless struct {
 	// negation (the else branch, or the body of unless) says nothing about any
 	// single test, so nothing is narrowed there
 	isAndChain bool
-	originalTs    map[string][]base.T
-	narrowTs      map[string][]base.T
-	ifNarrowTs    map[string][]base.T
+	originalTs map[string][]base.T
+	narrowTs   map[string][]base.T
+	ifNarrowTs map[string][]base.T
+	// classes the tests of the current condition exclude from a variable
+	// (!x.nil?, or x.nil? under unless); ifNarrowTs holds the admitted ones
+	ifExcludeTs map[string][]base.T
 }
 
 func NewIfUnless(conditionType string) DynamicEvaluator {
@@ -82,12 +85,31 @@ func (i *IfUnless) setConditionalCtx(
 		i.ifNarrowTs[object] = append(i.ifNarrowTs[object], *classT)
 
 		if isBodyNarrowed {
+			// !x.nil? && x.is_a?(Integer): what an earlier test of the same
+			// condition excluded stays excluded
+			var admitted []base.T
+
+			for _, v := range i.ifNarrowTs[object] {
+				excluded := false
+
+				for _, ex := range i.ifExcludeTs[object] {
+					if v.GetObjectClass() == ex.GetObjectClass() {
+						excluded = true
+						break
+					}
+				}
+
+				if !excluded {
+					admitted = append(admitted, v)
+				}
+			}
+
 			base.SetValueT(
 				ctx.GetFrame(),
 				ctx.GetClass(),
 				ctx.GetMethod(),
 				object,
-				base.MakeUnifiedT(i.ifNarrowTs[object]),
+				base.MakeUnifiedT(admitted),
 				ctx.IsDefineStatic,
 			)
 		}
@@ -97,7 +119,7 @@ func (i *IfUnless) setConditionalCtx(
 			break
 		}
 
-		i.ifNarrowTs[object] = append(i.ifNarrowTs[object], *classT)
+		i.ifExcludeTs[object] = append(i.ifExcludeTs[object], *classT)
 
 		origVariants := i.originalTs[object]
 		if len(origVariants) == 0 {
@@ -106,6 +128,12 @@ func (i *IfUnless) setConditionalCtx(
 
 		original := origVariants[0]
 
+		// x.is_a?(Integer) && !x.nil?: the exclusion applies to what an
+		// earlier test of the same condition admitted
+		if len(i.ifNarrowTs[object]) > 0 {
+			original = *base.MakeUnion(i.ifNarrowTs[object])
+		}
+
 		var remaining []base.T
 
 		switch original.GetType() {
@@ -113,7 +141,7 @@ func (i *IfUnless) setConditionalCtx(
 			for _, v := range original.GetVariants() {
 				excluded := false
 
-				for _, ex := range i.ifNarrowTs[object] {
+				for _, ex := range i.ifExcludeTs[object] {
 					if v.GetObjectClass() == ex.GetObjectClass() {
 						excluded = true
 						break
@@ -128,7 +156,7 @@ func (i *IfUnless) setConditionalCtx(
 		default:
 			excluded := false
 
-			for _, ex := range i.ifNarrowTs[object] {
+			for _, ex := range i.ifExcludeTs[object] {
 				if original.GetObjectClass() == ex.GetObjectClass() {
 					excluded = true
 					break
@@ -502,6 +530,7 @@ func (i *IfUnless) Evaluation(
 		originalTs:    make(map[string][]base.T),
 		narrowTs:      make(map[string][]base.T),
 		ifNarrowTs:    make(map[string][]base.T),
+		ifExcludeTs:   make(map[string][]base.T),
 	}
 
 	isParsingExpr := p.IsParsingExpression()
@@ -558,6 +587,7 @@ func (i *IfUnless) Evaluation(
 			i.narrowing(ctx)
 
 			i.ifNarrowTs = make(map[string][]base.T)
+			i.ifExcludeTs = make(map[string][]base.T)
 
 			// variables first tested in an elsif condition are restored after
 			// the conditional like those of the if condition (deferred calls
@@ -578,6 +608,7 @@ func (i *IfUnless) Evaluation(
 
 		if nextT.IsTargetIdentifier("else") {
 			i.ifNarrowTs = make(map[string][]base.T)
+			i.ifExcludeTs = make(map[string][]base.T)
 			p.SkipNewline()
 
 			nextT, err := p.Read()
